@@ -34,6 +34,7 @@ extern "C" {
     fn blake3_hasher_finalize(h: *const Hasher, out: *mut u8, out_len: usize);
     fn blake3_hasher_finalize_seek(h: *const Hasher, seek: u64, out: *mut u8, out_len: usize);
     fn blake3_hasher_reset(h: *mut Hasher);
+    fn blake3_xof_many(cv: *const u32, block: *const u8, block_len: u8, counter: u64, flags: u8, out: *mut u8, outblocks: usize);
     fn verif_set_features(f: libc::c_int);
     fn verif_get_features() -> libc::c_int;
     fn verif_sizeof_hasher() -> usize;
@@ -457,6 +458,19 @@ fn run(args: &Args, rep: &mut Report) {
         }
         let r = vcommon::par_run(args.jobs, work, rep, |(c, m), local| explore(c, m, lname, local));
         rep.merge(r);
+        // the dispatcher asked for zero output blocks writes nothing (at every mask)
+        {
+            let cv = [0x01234567u32; 8];
+            let block = [0x5au8; 64];
+            let mut out = vec![0xEEu8; 256];
+            unsafe { blake3_xof_many(cv.as_ptr(), block.as_ptr(), 64, 0, 0x08, out.as_mut_ptr().add(64), 0) };
+            rep.inc("evaluations");
+            rep.inc("zero_block_xof_calls");
+            if out.iter().any(|b| *b != 0xEE) {
+                rep.violation("xof_many:zero-blocks-writes", format!("blake3_xof_many(outblocks = 0) at {} writes to its output buffer", lname),
+                    json!({"property": "C06", "engine": "clib/hasher_bfs", "zero_blocks": {"level": lname}, "check": "xof_many:zero-blocks-writes"}));
+            }
+        }
         if unsafe { verif_get_features() } != *mask {
             eprintln!("g_cpu_features changed under the harness");
             std::process::exit(2);
@@ -511,6 +525,18 @@ fn huge(rep: &mut Report) {
 }
 
 fn replay(v: &Value) -> bool {
+    if v["zero_blocks"].is_object() {
+        let level = v["zero_blocks"]["level"].as_str().unwrap_or("portable");
+        let lv = masks().into_iter().find(|l| l.0 == level).expect("level not available");
+        unsafe { verif_set_features(lv.1) };
+        let cv = [0x01234567u32; 8];
+        let block = [0x5au8; 64];
+        let mut out = vec![0xEEu8; 256];
+        unsafe { blake3_xof_many(cv.as_ptr(), block.as_ptr(), 64, 0, 0x08, out.as_mut_ptr().add(64), 0) };
+        let bad = out.iter().any(|b| *b != 0xEE);
+        println!("blake3_xof_many(outblocks = 0) wrote: {}", bad);
+        return bad;
+    }
     if v["huge"].is_object() {
         let args = Args { prop: "C06".into(), tier: "quick".into(), seed: 1, report: String::new(), replay: None, jobs: 1, extra: Default::default() };
         let mut rep = Report::new(&args, "replay", "model_checking");
